@@ -147,6 +147,7 @@ fn main() {
     std::panic::set_hook(Box::new(|_| {}));
     let registry: BuiltinRegistry<NoEffect> = BuiltinRegistry::with_modules(&core_modules());
     let mut out = Vec::new();
+    let stream = std::env::args().any(|a| a == "--stream");
     for c in calls {
         let name = c.get("builtin").unwrap().as_str().unwrap().to_string();
         let mut ex: Executor<NoEffect> = Executor::new(registry.clone(), false, 0);
@@ -167,7 +168,17 @@ fn main() {
                 }
             }
         };
-        out.push(res);
+        if stream {
+            // one result per line, flushed at once: the driver sees which call hangs or takes the process down
+            use std::io::Write;
+            let mut so = std::io::stdout();
+            writeln!(so, "{}", serde_json::to_string(&res).unwrap()).unwrap();
+            so.flush().unwrap();
+        } else {
+            out.push(res);
+        }
     }
-    println!("{}", serde_json::to_string(&out).unwrap());
+    if !stream {
+        println!("{}", serde_json::to_string(&out).unwrap());
+    }
 }
